@@ -10,6 +10,9 @@ CONSTANTS N = 4
  MaxByz = 0
  Vals = {1, 2}
  Script <- ScriptFloorQuorum
+ Silent = {}
+ WinFamily = "none"
+ WinBudget = 0
  PreStarted = TRUE
  Q <- QFloor
 INVARIANTS Agreement
